@@ -229,6 +229,10 @@ func (i *Interpreter) executeFieldAssign(objName, fieldPath string, valueExpr Ex
 	if err != nil {
 		return nil, fmt.Errorf("cannot assign to field of undeclared variable '%s'", objName)
 	}
+	// The assignment works in place, and a constant is shared by every request.
+	if i.IsConstant(objName) && i.isModuleDefinition(objName, env) {
+		return nil, fmt.Errorf("cannot reassign constant '%s'", objName)
+	}
 
 	obj, ok := objVal.(map[string]interface{})
 	if !ok {
@@ -710,6 +714,23 @@ func (i *Interpreter) executeAssert(stmt AssertStatement, env *Environment) (int
 
 // executeIndexAssign handles assignment to indexed targets: arr[0] = value, obj.field[0] = value
 func (i *Interpreter) executeIndexAssign(stmt IndexAssignStatement, env *Environment) (interface{}, error) {
+	// No element of a constant can be assigned (the variable at the root of
+	// the target is what the statement changes).
+	root := stmt.Target
+	for {
+		switch t := root.(type) {
+		case ArrayIndexExpr:
+			root = t.Array
+			continue
+		case FieldAccessExpr:
+			root = t.Object
+			continue
+		}
+		break
+	}
+	if v, ok := root.(VariableExpr); ok && i.IsConstant(v.Name) && i.isModuleDefinition(v.Name, env) {
+		return nil, fmt.Errorf("cannot reassign constant '%s'", v.Name)
+	}
 	value, err := i.EvaluateExpression(stmt.Value, env)
 	if err != nil {
 		return nil, err
